@@ -108,6 +108,10 @@ func brokenScenarios() []*Scenario {
 		mk("c09-broken-5", "empty file", map[string]string{"p/a.go": ok, "p/b.go": ""}),
 		mk("c09-broken-6", "derive call with an argument that does not type-check", map[string]string{"p/a.go": "package p\n\nfunc f() bool { return deriveEqual(1+\"a\", nope) }\n"}),
 		mk("c09-broken-7", "derive call whose nested argument never becomes typeable", map[string]string{"p/a.go": "package p\n\nfunc f(m map[string]int) []string { return deriveSort(deriveKeys(undefinedMap)) }\n"}),
+		mk("c09-broken-10", "undeclared type inside a map argument", map[string]string{"p/a.go": "package p\n\nfunc f(xs, ys map[string]Undefined) bool { return deriveEqual(xs, ys) }\n"}),
+		mk("c09-broken-11", "undeclared type inside a slice inside a map argument", map[string]string{"p/a.go": "package p\n\nfunc f(m map[string][]Undefined) []string { return deriveKeys(m) }\n"}),
+		mk("c09-broken-12", "undeclared type behind a pointer and in a struct field", map[string]string{"p/a.go": "package p\n\ntype S struct{ F *Undefined }\n\nfunc f(a, b *S) bool { return deriveEqual(a, b) }\n\nfunc g(a *Undefined) uint64 { return deriveHash(a) }\n"}),
+		mk("c09-broken-13", "undeclared type as function parameter of a function argument", map[string]string{"p/a.go": "package p\n\nfunc f(fn func(Undefined) int, l []Undefined) []int { return deriveFmap(fn, l) }\n"}),
 		mk("c09-broken-8", "no Go files", map[string]string{"p/readme.txt": "nothing"}),
 		mk("c09-broken-9", "method value and conversion calls named like derive functions", map[string]string{"p/a.go": "package p\n\ntype deriveT int\n\nfunc f(x int) deriveT { return deriveT(x) }\n\nfunc g(a, b *deriveT) bool { return deriveEqual(a, b) }\n"}),
 	}
